@@ -1,3 +1,230 @@
+/-
+  Model driver of engine `conn` (C02): the request-head parsers.
+  Same line protocol as harness/h_reqparse.c (ops head / enum / args / enumargs /
+  cookie / enumck) plus `stream` for the daemon-level prediction used with
+  harness/h_conn02.c.
+-/
+import Mhd.Model.ReqHead
 import Driver.Common
-/- stub: replaced by the builder of this engine -/
-def main : IO Unit := Driver.runEngine () (fun s _ => (s, ["bad-op"]))
+open Mhd.Req Mhd.Gen Driver
+
+def hexN (bs : List UInt8) : String := hexOfBytes bs
+def hexO : Option (List UInt8) → String
+  | none => "~"
+  | some bs => hexOfBytes bs
+
+/-- phase of the head state machine (what `MHD_connection_handle_idle` drives) -/
+inductive Ph where
+  | rl (s : RL)
+  | hs (t : Target) (s : HS)
+  | ok (x : Head)
+  | err (reply : Option Nat)
+  | fault (f : Fault)
+
+structure Cfg where
+  lvl : Int
+  pool : Nat
+  rbsize : Nat
+
+def showFault : Fault → String
+  | .read s i => s!"fault read site={s} idx={i}"
+  | .write s i => s!"fault write site={s} idx={i}"
+  | .null s => s!"fault null site={s}"
+
+/-- run the header phase from a header state -/
+def runHs (c : Cfg) (t : Target) (s : HS) : Ph :=
+  match (hsScanner (FLFlags.ofLevel c.lvl) t.rb).run s with
+  | .more s' => .hs t s'
+  | .fault f => .fault f
+  | .done (.err _) => .err (some Http.codeBadRequest)
+  | .done (.ok h) =>
+    match parseCookieHeader (CKFlags.ofLevel c.lvl) h.buf h.elems with
+    | .error f => .fault f
+    | .ok ck => .ok ⟨t, h, ck⟩
+
+/-- run the parsers on the current phase (after new bytes have arrived) -/
+def runPh (c : Cfg) (base : Nat) : Ph → Ph
+  | .rl s =>
+    let F := RLFlags.ofLevel c.lvl
+    match getRequestLineOuter F (Discipline.unesc_strict c.lvl) c.pool ((rlScanner F).run s) with
+    | .more s' => .rl s'
+    | .err e => .err e.reply
+    | .fault f => .fault f
+    | .ok t => runHs c t (HS.ofTarget t (c.rbsize - (t.rb - base)))
+  | .hs t s => runHs c t s
+  | p => p
+
+def extendPh (e : Bytes) : Ph → Ph
+  | .rl s => .rl (rlExtend s e)
+  | .hs t s => .hs t (hsExtend s e)
+  | .ok x => .ok { x with h := { x.h with buf := x.h.buf ++ e } }
+  | p => p
+
+def feedPh (c : Cfg) (base : Nat) (p : Ph) (e : Bytes) : Ph :=
+  match p with
+  | .rl _ | .hs _ _ => runPh c base (extendPh e p)
+  | _ => extendPh e p
+
+def showKv (kv : List (Nat × List UInt8 × Option (List UInt8))) : String :=
+  "[" ++ ",".intercalate (kv.map fun (k, key, v) => s!"{k}:{hexN key}={hexO v}") ++ "]"
+
+def showPh (base : Nat) : Ph → String
+  | .rl s => s!"more c={s.rb - base}"
+  | .hs _ s => s!"more c={s.rb - base}"
+  | .err (some code) => s!"err {code}"
+  | .err none => "err close"
+  | .fault f => showFault f
+  | .ok x =>
+    let v := x.view
+    s!"ok m={hexN v.method} u={hexN v.url} v={hexN v.version} hv={v.httpVer} raw={hexN v.rawTarget} kv={showKv v.kv} hs={v.headerSize} rb={x.h.rb - base} rbsz={x.h.rbSize} rest={hexN (x.h.buf.extract x.h.rb x.h.buf.size).toList}"
+
+def headLine (c : Cfg) (chunks : List Bytes) : String :=
+  let p0 : Ph := .rl (RL.init #[] 0)
+  showPh 0 (chunks.foldl (feedPh c 0) p0)
+
+/-! ### args / cookie alone -/
+
+def argsLine (lvl : Int) (s : List UInt8) : String :=
+  let buf : Bytes := (s ++ [0]).toArray
+  match parseArgs (Discipline.unesc_strict lvl) Http.kindGetArgument (buf.size + 1) buf 0 [] with
+  | .error f => showFault f
+  | .ok (b, elems) =>
+    "yes " ++ showKv (elems.map fun e => (e.kind, sliceView b #[] e.key, e.value.map (sliceView b #[])))
+
+def ckResNum : CKRes → Int
+  | .ok => 1 | .okLax => 2 | .malformed => -1 | .noMemory => 0
+
+def cookieLine (lvl : Int) (s : List UInt8) : String :=
+  -- the harness adds the element "Cookie: <value>" with value_size = strlen (value)
+  let v := s.takeWhile (· != 0)
+  let key := strBytes Http.hdrCookie
+  let buf : Bytes := (key ++ [0] ++ v ++ [0]).toArray
+  let el : Elem := ⟨Http.kindHeader, ⟨0, 0, key.length⟩, some ⟨0, key.length + 1, v.length⟩⟩
+  match parseCookieHeader (CKFlags.ofLevel lvl) buf [el] with
+  | .error f => showFault f
+  | .ok ck =>
+    let cks := ck.elems.filter (·.kind == Http.kindCookie)
+    s!"res={ckResNum ck.res} " ++
+      showKv (cks.map fun e => (e.kind, sliceView buf ck.cpy e.key, e.value.map (sliceView buf ck.cpy)))
+
+/-! ### enumeration with digest -/
+
+def alpha : Array UInt8 := #[71, 47, 63, 61, 38, 37, 32, 9, 13, 10, 11, 0, 58, 97, 49, 59]
+
+def fnvLine (h : UInt64) (s : String) : UInt64 :=
+  let h := s.toUTF8.foldl (fun h b => (h ^^^ b.toUInt64) * 1099511628211) h
+  (h ^^^ 10) * 1099511628211
+
+structure EnumSt where
+  digest : UInt64 := 14695981039346656037
+  n : Nat := 0
+  nok : Nat := 0
+  nerr : Nat := 0
+  nmore : Nat := 0
+  splitdiff : Nat := 0
+  first : Option (List UInt8) := none
+
+def classify (e : EnumSt) (line : String) : EnumSt :=
+  if line.startsWith "ok" || line.startsWith "yes" || line.startsWith "res=1" || line.startsWith "res=2" then
+    { e with nok := e.nok + 1 }
+  else if line.startsWith "err" || line.startsWith "no" || line.startsWith "res=" then { e with nerr := e.nerr + 1 }
+  else { e with nmore := e.nmore + 1 }
+
+def enumCase (kind : Nat) (c : Cfg) (e : EnumSt) (input m : List UInt8) : EnumSt :=
+  if kind == 0 then
+    let one := headLine c (if input.isEmpty then [] else [input.toArray])
+    let e := classify { e with digest := fnvLine e.digest one, n := e.n + 1 } one
+    let bw := headLine c (input.map fun b => #[b])
+    let e := { e with digest := fnvLine e.digest bw }
+    if (one.startsWith "err" && bw.startsWith "err") || one == bw then e
+    else { e with splitdiff := e.splitdiff + 1, first := e.first <|> some m }
+  else
+    let line := if kind == 1 then argsLine c.lvl input else cookieLine c.lvl input
+    classify { e with digest := fnvLine e.digest line, n := e.n + 1 } line
+
+partial def enumRec (kind : Nat) (c : Cfg) (pre suf : List UInt8) (maxlen : Nat) (m : List UInt8) (e : EnumSt) : EnumSt :=
+  let e := enumCase kind c e (pre ++ m ++ suf) m
+  if m.length == maxlen then e
+  else alpha.foldl (fun e a => enumRec kind c pre suf maxlen (m ++ [a]) e) e
+
+def hex16 (v : UInt64) : String :=
+  String.ofList ((List.range 16).map fun i => hexDigit ((v.toNat >>> (4 * (15 - i))) % 16))
+
+def showEnum (e : EnumSt) : String :=
+  s!"digest={hex16 e.digest} n={e.n} ok={e.nok} err={e.nerr} more={e.nmore} splitdiff={e.splitdiff} first={hexO e.first}"
+
+/-! ### daemon-level prediction: a pipelined stream of requests
+
+  `stream <lvl> <hex>`: the whole client byte stream.  For each request in turn: the
+  head as the handler sees it, or the refusal.  Bodies: identity `Content-Length`
+  only (chunked decoding belongs to C03: reported as `te` and the prediction stops). -/
+
+def decimal? (bs : List UInt8) : Option Nat :=
+  if bs.isEmpty || !bs.all (fun b => 48 ≤ b && b ≤ 57) then none
+  else some (bs.foldl (fun a b => a * 10 + (b.toNat - 48)) 0)
+
+partial def streamReqs (lvl : Int) (pool : Nat) (buf : Bytes) (rb : Nat) (acc : List String) : List String :=
+  if rb ≥ buf.size then acc
+  else
+    match parseHead lvl pool 32768 buf rb with
+    | .more => acc ++ ["more"]
+    | .err (some c) => acc ++ [s!"err {c}"]
+    | .err none => acc ++ ["err close"]
+    | .fault f => acc ++ [showFault f]
+    | .ok x =>
+      let v := x.view
+      if hostMissing lvl x then acc ++ [s!"err {Http.codeBadRequest}"] else
+      let line := s!"req m={hexN v.method} u={hexN v.url} v={hexN v.version} kv={showKv v.kv} hs={v.headerSize}"
+      let te := lookupElem x.h.buf x.ck.elems Http.kindHeader Http.hdrTransferEncoding
+      let cl := lookupElem x.h.buf x.ck.elems Http.kindHeader Http.hdrContentLength
+      match te, cl with
+      | some _, _ => acc ++ [line ++ " te"]
+      | none, some e =>
+        match (e.value.map (sliceView x.h.buf x.ck.cpy)).bind decimal? with
+        | some n =>
+          if x.h.rb + n > x.h.buf.size then acc ++ [line ++ s!" body={n} short"]
+          else streamReqs lvl pool x.h.buf (x.h.rb + n)
+                 (acc ++ [line ++ s!" body={hexN (x.h.buf.extract x.h.rb (x.h.rb + n)).toList}"])
+        | none => acc ++ [line ++ " badcl"]
+      | none, none => streamReqs lvl pool x.h.buf x.h.rb (acc ++ [line ++ " body=-"])
+
+def bytesList (ws : List String) : Option (List (List UInt8)) := ws.mapM bytesOfHex
+
+def stepLine (_ : Unit) (ws : List String) : Unit × List String :=
+  let bad := ((), ["bad-op"])
+  match ws with
+  | "head" :: lvl :: pool :: rbsize :: chunks =>
+    match lvl.toInt?, pool.toNat?, rbsize.toNat?, bytesList chunks with
+    | some l, some p, some r, some cs =>
+      if p < 64 ∨ p > 1048576 ∨ r > p then bad
+      else if (cs.foldl (fun a c => a + c.length) 0) > r then bad
+      else ((), [headLine ⟨l, p, r⟩ (cs.map (·.toArray))])
+    | _, _, _, _ => bad
+  | ["enum", lvl, pool, rbsize, maxlen, pre, suf] =>
+    match lvl.toInt?, pool.toNat?, rbsize.toNat?, maxlen.toNat?, bytesOfHex pre, bytesOfHex suf with
+    | some l, some p, some r, some ml, some pr, some su =>
+      if p < 64 ∨ p > 1048576 ∨ r > p ∨ ml > 8 ∨ pr.length + ml + su.length > r ∨ pr.length + ml + su.length > 250 then bad
+      else ((), [showEnum (enumRec 0 ⟨l, p, r⟩ pr su ml [] {})])
+    | _, _, _, _, _, _ => bad
+  | ["args", lvl, s] =>
+    match lvl.toInt?, bytesOfHex s with
+    | some l, some b => ((), [argsLine l b])
+    | _, _ => bad
+  | ["cookie", lvl, s] =>
+    match lvl.toInt?, bytesOfHex s with
+    | some l, some b => ((), [cookieLine l b])
+    | _, _ => bad
+  | [op, lvl, maxlen, pre, suf] =>
+    if op != "enumargs" && op != "enumck" then bad else
+    match lvl.toInt?, maxlen.toNat?, bytesOfHex pre, bytesOfHex suf with
+    | some l, some ml, some pr, some su =>
+      if ml > 8 ∨ pr.length + ml + su.length > 250 then bad
+      else ((), [showEnum (enumRec (if op == "enumargs" then 1 else 2) ⟨l, 32768, 0⟩ pr su ml [] {})])
+    | _, _, _, _ => bad
+  | ["stream", lvl, pool, s] =>
+    match lvl.toInt?, pool.toNat?, bytesOfHex s with
+    | some l, some p, some b => ((), [" | ".intercalate (streamReqs l p b.toArray 0 [])])
+    | _, _, _ => bad
+  | _ => bad
+
+def main : IO Unit := Driver.runEngine () stepLine
